@@ -224,7 +224,9 @@ impl RwLock {
                     _ => continue,
                 };
 
-                if op.action() == Action::Write {
+                // (a thread that is about to *try* keeps running: its attempt
+                // will fail)
+                if op.action() == Action::Write && op.is_blocking() {
                     let location = op.location();
                     th.set_blocked(location);
                 }
@@ -259,7 +261,7 @@ impl RwLock {
                 }
 
                 match th.operation.as_ref() {
-                    Some(op) if op.object() == self.state.erase() => {
+                    Some(op) if op.object() == self.state.erase() && op.is_blocking() => {
                         let location = op.location();
                         th.set_blocked(location);
                     }
